@@ -43,7 +43,7 @@ import (
 type c04Plan struct {
 	Bal0   string `json:"bal0,omitempty"`    // +1 | -1 | nil | short | error | vmerror
 	Est    string `json:"est,omitempty"`     // error
-	Call   string `json:"call,omitempty"`    // false | nil | garbage | short | approval | approval-first | topicless | error | vmerror | fabricate | amt-1 | amt+1
+	Call   string `json:"call,omitempty"`    // false | nil | garbage | short | approval | approval-first | topicless | custom-then-approval | custom-approval-first | error | vmerror | fabricate | amt-1 | amt+1
 	Bal1   string `json:"bal1,omitempty"`    // +1 | -1 | nil | short | error | vmerror | as-expected
 	FailAt int    `json:"fail_at,omitempty"` // the k-th EVM keeper call (ApplyMessage or EstimateGas) returns an error
 }
@@ -84,6 +84,7 @@ type c04Wrap struct {
 	st  *c04WrapState
 }
 
+var c04CustomTopics = []string{crypto.Keccak256Hash([]byte("FeeCharged(address,uint256)")).Hex(), common.BytesToHash(c04Thief.Bytes()).Hex()}
 var c04ApprovalTopic = crypto.Keccak256Hash([]byte("Approval(address,address,uint256)")).Hex()
 
 var c04Two256 = new(big.Int).Lsh(big.NewInt(1), 256)
@@ -296,6 +297,12 @@ func (w *c04Wrap) c04Commit(ctx sdk.Context, msg core.Message, tracer vm.EVMLogg
 		res.Logs = append([]*evmtypes.Log{extra(approval)}, res.Logs...)
 	case "topicless":
 		res.Logs = append(res.Logs, extra(nil))
+	case "custom-then-approval":
+		// an event the ERC-20 ABI does not know (a fee-on-transfer token's own event) in front of the Approval:
+		// the scan for Approval events must not stop at it
+		res.Logs = append(res.Logs, extra(c04CustomTopics), extra(approval))
+	case "custom-approval-first":
+		res.Logs = append([]*evmtypes.Log{extra(c04CustomTopics), extra(approval)}, res.Logs...)
 	}
 	// what CallEVMWithData and the path will make of it
 	if !res.Failed() {
